@@ -124,15 +124,8 @@ struct reopen_bits B;
 	__CPROVER_loop_invariant(data->num_keys == num_keys && keys_per_block == KPB_C && data->keyb == MC.keyb) \
 	__CPROVER_loop_invariant(M.nblk <= MC.istar || COV(num_keys)) \
 	__CPROVER_decreases(num_keys + KPB_C - i)
-#define VERIF_INV_UNDO_REOPEN_KEYS \
-	__CPROVER_assigns(j, dkey, lblk, data->undo_blk_num, data->keys_in_block, B) \
-	__CPROVER_loop_invariant(j <= max_j && max_j <= KPB_C && dkey == data->keyb->keys + j && B.viol == 0) \
-	__CPROVER_loop_invariant(M.nblk <= MC.istar + 1 || COV(num_keys)) \
-	__CPROVER_loop_invariant(M.nblk != MC.istar + 1 || !K_EXISTS(num_keys) || \
-				 (KEY_AT(data, MC.jstar).fsblk == M.k_fsblk && KEY_AT(data, MC.jstar).size == M.k_size)) \
-	__CPROVER_loop_invariant(M.nblk != MC.istar + 1 || j <= MC.jstar || COV(num_keys)) \
-	__CPROVER_loop_invariant(j == 0 || data->keys_in_block == j) \
-	__CPROVER_decreases(max_j - j)
+/* the inner loop (at most keys-per-block = tdb/16 - 1 iterations, a constant of the format) is unwound: with a loop
+ * contract its cursor dkey is havocked and every key access would range over all objects */
 
 #include "lib/ext2fs/undo_io.c"
 
